@@ -19,7 +19,7 @@ RULE = ("cases = list of 1..10 structured reports: Marlin 'X: Y: Z: E: Count "
         "optional), each with or without leading 'ok '; Grbl '<State|MPos|WPos:"
         "x,y,z[,a]|FS:f,s or F:f|WCO:..|Bf:..|Ov:..>' with fields shuffled; "
         "'[PRB:x,y,z[,a]:0|1]'; benign lines ('ok', 'echo:busy: processing', "
-        "'wait'); values = signed decimals in several spellings (-0.5, 12, "
+        "'wait'), an earlier report repeated byte for byte; values = signed decimals in several spellings (-0.5, 12, "
         "3.250, 0, 100000.125); non-trivial = a later report omits a letter an "
         "earlier one set, or a report repeats a letter (Count X:); distinct by "
         "SHA-1")
@@ -132,7 +132,8 @@ def render(rep):
 
 def value_strategy():
     from hypothesis import strategies as st
-    return st.tuples(st.one_of(st.integers(-10 ** 8, 10 ** 8), st.integers(-3000, 3000)),
+    return st.tuples(st.one_of(st.integers(-10 ** 8, 10 ** 8), st.integers(-3000, 3000),
+                               st.just(0), st.integers(-3, 3)),
                      st.integers(0, 4), st.integers(0, 2)).map(list)
 
 
@@ -173,7 +174,8 @@ def report_strategy():
     noise = st.sampled_from(["ok", "echo:busy: processing", "wait", "ok\r",
                              "echo:Unknown command: \"M999\"", "start"]).map(
         lambda t: {"fam": "noise", "text": t})
-    return st.one_of(pos, pos, temp, temp, grbl, grbl, prb, noise)
+    repeat = st.integers(0, 9).map(lambda i: {"fam": "repeat", "i": i})
+    return st.one_of(pos, pos, temp, temp, grbl, grbl, prb, noise, repeat, repeat)
 
 
 def make_callback():
@@ -187,7 +189,15 @@ def run_case(case, cl=None):
     cl = set() if cl is None else cl
     w, cb = make_callback()
     latest = {}
+    resolved = []
     for i, rep in enumerate(case["reports"]):
+        if rep["fam"] == "repeat":
+            # the device sends an earlier report again, byte for byte
+            if not resolved:
+                continue
+            rep = resolved[rep["i"] % len(resolved)]
+            cl.add("identical_report_repeated")
+        resolved.append(rep)
         line, truth = render(rep)
         if any(k in latest for k in set(latest) - set(truth)) and truth:
             cl.add("later_report_omits_letter")
